@@ -104,6 +104,33 @@ def C29 : List (String × String) := [("EnsureRead", "a37a8396188f899f"),
   ("uint64ToBytes", "6aa44f15db6b0b9d"),
   ("BytesToUint64", "b6e4d7a07951de01")]
 
+def C31 : List (String × String) := [("NewHint", "93f38caf0dad8228"),
+  ("EnsureParseHint", "93c36666335587ca"),
+  ("ParseHint", "1abad31f290f825c"),
+  ("parseHint", "d69c4cbe00054f91"),
+  ("Hint.IsValid", "b60e96f95b617186"),
+  ("hintString", "e5b3465bb367ef3d"),
+  ("Hint.Equal", "c6ee7721e424a49c"),
+  ("Hint.IsCompatible", "5b6deb226dce7734"),
+  ("Type.IsValid", "b72f515dff59849e"),
+  ("NewCompatibleSet", "b83b5f8285166a82"),
+  ("CompatibleSet.add", "0da979c4399f9f15"),
+  ("CompatibleSet.addWithHint", "6d6eba050b0a5abd"),
+  ("CompatibleSet.Find", "e8fd3b6e0f60a4f5"),
+  ("CompatibleSet.FindByString", "848a03f550ca7285"),
+  ("CompatibleSet.FindBytType", "00b089cde1d5c168"),
+  ("CompatibleSet.FindBytTypeString", "0f30e537902bc4fe"),
+  ("CompatibleSet.find", "ff88d6bba9b3bedd"),
+  ("CompatibleSet.findBytType", "6fffec1c2e5e00c8"),
+  ("CompatibleSet.cacheGet", "a3aa148dd6fbcc43"),
+  ("CompatibleSet.cacheSet", "6ded8c54f5639763"),
+  ("EnsureParseVersion", "6e60e5d71c6c7ae9"),
+  ("ParseVersion", "91ad47cfd970b449"),
+  ("newVersion", "caba68d037b0faaa"),
+  ("Version.IsValid", "6a6f977bbb04bc6b"),
+  ("Version.Compare", "abc782e8e0030b26"),
+  ("Version.IsCompatible", "3120746b5d45ce95")]
+
 def C35 : List (String × String) := []
 
 def C38 : List (String × String) := [("ProposalMaker.PreferEmpty", "557bd293dd5b599b"),
